@@ -8,6 +8,7 @@ import (
 	"go/token"
 	"os"
 	"path/filepath"
+	"reflect"
 	"runtime"
 	"strconv"
 	"strings"
@@ -115,6 +116,24 @@ func c19(c *Ctx) {
 	o.WriteFile("Tab.v", tab)
 	o.Stage("Tab.v")
 
+	// the flag testers (Attribute.NOSPLIT() etc.): each reports exactly the bit of the macro of its name
+	for _, d := range translateTextflagH() {
+		v, err := strconv.ParseUint(d[1], 0, 64)
+		if err != nil {
+			continue
+		}
+		m := reflect.ValueOf(attr.Attribute(0)).MethodByName(d[0])
+		if !m.IsValid() {
+			continue
+		}
+		for _, a := range []uint64{0, v, 0xffff, 0xffff &^ v, v | 1, v | 0x8000, 1, 2, 4, 8, 16, 32, 64, 128, 256, 512, 1024, 2048} {
+			got := reflect.ValueOf(attr.Attribute(a)).MethodByName(d[0]).Call(nil)[0].Bool()
+			if got != (a&v != 0) {
+				o.Plan.GoViolations = append(o.Plan.GoViolations, GoViolation{Key: "attr:tester", Desc: fmt.Sprintf("Attribute(%d).%s() = %v but textflag.h defines %s as %d", a, d[0], got, d[0], v), Replay: map[string]any{"value": a, "flag": d[0]}})
+				break
+			}
+		}
+	}
 	// all 65536 values through the real Attribute.Asm / ContainsTextFlags, 16 shards
 	var shardFiles []string
 	var finalImports []string
